@@ -2,7 +2,7 @@
 
 use super::common::{input_of, run_case, Expect, LineCase};
 use crate::explore::{Family, Mode, Verdict};
-use crate::obs::{Run, Slot, Val};
+use crate::obs::{self, Run, Slot, Val};
 use crate::runner::{Cfg, Ctx, Prop, Tier};
 use crate::seam;
 use crate::spec::spec;
@@ -23,6 +23,9 @@ pub enum Case {
     Line { line: LineCase, want: Want },
     /// set_timezone(name) on a calculator whose zone is `before`; expected Some((NAME, offset)) or None (rejected)
     SetZone { before: String, name: String, want: Option<(String, i32)> },
+    /// ONE calculator whose default zone is switched with set_timezone between evaluations
+    /// (None = no call yet: the initial UTC); after every switch three time lines are evaluated
+    Switch { zones: Vec<Option<String>> },
 }
 
 const DAY: i64 = 86400;
@@ -62,6 +65,33 @@ fn gmt_forms() -> Vec<(String, i32)> {
         }
     }
     v
+}
+
+fn judge_time(run: &Run, want: &Want, v: &mut Verdict) {
+    match (run.single(), want) {
+        (Some(Slot::Ok { val: Val::Time { utc, zone, off }, out }), Want::Time { utc_mod, zone: wz, off: woff }) => {
+            if m(*utc) != *utc_mod {
+                v.violation = Some("wrong instant (mod 24 h)".into());
+            } else if zone != wz || off != woff {
+                v.violation = Some("wrong zone label or offset".into());
+            } else {
+                let shown = m(*utc_mod + *woff as i64 * 60);
+                let want_out = format!("{:02}:{:02}:{:02} {}", shown / 3600, (shown / 60) % 60, shown % 60, wz);
+                if *out != want_out {
+                    v.expected = format!("{} printed {:?}", v.expected, want_out);
+                    v.violation = Some("wrong printed time".into());
+                }
+            }
+        }
+        (Some(Slot::Ok { val: Val::Duration(d), .. }), Want::Duration(w)) => {
+            if d != w {
+                v.violation = Some("wrong difference".into());
+            }
+        }
+        (Some(Slot::Ok { val, .. }), _) => v.violation = Some(format!("wrong kind: {}", val.kind())),
+        (Some(Slot::Err(e)), _) => v.violation = Some(format!("error instead of a value: {}", e)),
+        _ => v.violation = Some("no value".into()),
+    }
 }
 
 impl Prop for C11 {
@@ -193,10 +223,10 @@ impl Prop for C11 {
             f.push(Family::new(
                 "plus-minus-duration",
                 Mode::Full,
-                "T + D and T - D for T on a 12-time grid (incl. 00:00, 23:59:59) and D in [1 second, 59 minutes, 1 hour, 13 hours, 24 hours, 25 hours, 1 day, 49 hours 30 minutes], under every default zone: the clock moves by D modulo 24 h",
+                "T + D and T - D for T on a 12-time grid (incl. 00:00, 23:59:59) and D in [1 second, 59 minutes, 1 hour, 13 hours, 24 hours, 25 hours, 1 day, 49 hours 30 minutes, 52 weeks, 137 years, 4294967296 seconds, 80000000 minutes, 1000000 hours] (magnitudes beyond 2^31 and 2^32 seconds), under every default zone: the clock moves by D modulo 24 h",
                 move |ch| {
                     let times: [(&str, i64); 12] = [("00:00", 0), ("0:01", 60), ("1:00", 3600), ("6:45", hms(6, 45, 0)), ("11:30", hms(11, 30, 0)), ("11:59:59", hms(11, 59, 59)), ("12:00", hms(12, 0, 0)), ("13:15", hms(13, 15, 0)), ("18:00:01", hms(18, 0, 1)), ("22:30", hms(22, 30, 0)), ("23:00", hms(23, 0, 0)), ("23:59:59", hms(23, 59, 59))];
-                    let ds: [(&str, i64); 8] = [("1 second", 1), ("59 minutes", 59 * 60), ("1 hour", 3600), ("13 hours", 13 * 3600), ("24 hours", 24 * 3600), ("25 hours", 25 * 3600), ("1 day", 86400), ("49 hours 30 minutes", 49 * 3600 + 1800)];
+                    let ds: [(&str, i64); 13] = [("1 second", 1), ("59 minutes", 59 * 60), ("1 hour", 3600), ("13 hours", 13 * 3600), ("24 hours", 24 * 3600), ("25 hours", 25 * 3600), ("1 day", 86400), ("49 hours 30 minutes", 49 * 3600 + 1800), ("52 weeks", 52 * 7 * 86400), ("137 years", 137 * 365 * 86400), ("4294967296 seconds", 4294967296), ("80000000 minutes", 80000000 * 60), ("1000000 hours", 1000000 * 3600)];
                     let (tzset, label, off) = *ch.pick(&dz);
                     let (tt, wall) = *ch.pick(&times);
                     let (dt, dv) = *ch.pick(&ds);
@@ -222,6 +252,24 @@ impl Prop for C11 {
                     let (b, bv) = ch.pick(&grid).clone();
                     let line = LineCase::new(format!("{} to {}", a, b), Expect::Unspecified, "difference").with_cfg(cfg_tz(tzset));
                     Some(Case::Line { line, want: Want::Duration((av - bv).abs()) })
+                },
+            ));
+        }
+        // (e2) switching the default zone of a live calculator ----------------------------------
+        {
+            let ds = tier.pick(3, 4);
+            f.push(Family::new(
+                "zone-switches",
+                Mode::Full,
+                &format!("ONE calculator whose default zone is switched with set_timezone between evaluations: every sequence of 1..={} zones from [initial UTC (no call), CET, EST, GMT+5:30, GMT-3:30, UTC]; after every switch '11:30', '23:45 + 30 minutes', '0:15 to EST' and '3:00 to 1:30' are evaluated: wall times are read and shown in the zone in force, whatever was evaluated before the switch", ds),
+                move |ch| {
+                    let n = 1 + ch.choose(ds);
+                    let mut zones: Vec<Option<String>> = Vec::new();
+                    for i in 0..n {
+                        let opts: Vec<Option<&str>> = if i == 0 { vec![None, Some("CET"), Some("EST"), Some("GMT+5:30"), Some("GMT-3:30")] } else { vec![Some("UTC"), Some("CET"), Some("EST"), Some("GMT+5:30"), Some("GMT-3:30")] };
+                        zones.push(ch.pick(&opts).map(|s| s.to_string()));
+                    }
+                    Some(Case::Switch { zones })
                 },
             ));
         }
@@ -261,31 +309,53 @@ impl Prop for C11 {
                         v.violation = Some(format!("panic: {}", p.message));
                         v.site = Some(p.site.clone());
                     }
-                    _ => match (run.single(), want) {
-                        (Some(Slot::Ok { val: Val::Time { utc, zone, off }, out }), Want::Time { utc_mod, zone: wz, off: woff }) => {
-                            if m(*utc) != *utc_mod {
-                                v.violation = Some("wrong instant (mod 24 h)".into());
-                            } else if zone != wz || off != woff {
-                                v.violation = Some("wrong zone label or offset".into());
-                            } else {
-                                let shown = m(*utc_mod + *woff as i64 * 60);
-                                let want_out = format!("{:02}:{:02}:{:02} {}", shown / 3600, (shown / 60) % 60, shown % 60, wz);
-                                if *out != want_out {
-                                    v.expected = format!("{} printed {:?}", v.expected, want_out);
-                                    v.violation = Some("wrong printed time".into());
-                                }
-                            }
-                        }
-                        (Some(Slot::Ok { val: Val::Duration(d), .. }), Want::Duration(w)) => {
-                            if d != w {
-                                v.violation = Some("wrong difference".into());
-                            }
-                        }
-                        (Some(Slot::Ok { val, .. }), _) => v.violation = Some(format!("wrong kind: {}", val.kind())),
-                        (Some(Slot::Err(e)), _) => v.violation = Some(format!("error instead of a value: {}", e)),
-                        _ => v.violation = Some("no value".into()),
-                    },
+                    _ => judge_time(&run, want, &mut v),
                 }
+                v
+            }
+            Case::Switch { zones } => {
+                let mut v = Verdict { input: format!("switch default zone {:?}", zones), class: "history-compared", compared: true, expected: "after every set_timezone the wall times are read and shown in the zone in force".into(), ..Default::default() };
+                let mut calc = ctx.fresh(&Cfg::default());
+                let mut trace = String::new();
+                for (step, z) in zones.iter().enumerate() {
+                    let (label, off) = match z {
+                        None => ("UTC".to_string(), 0),
+                        Some(name) => {
+                            if let Err(e) = calc.set_timezone(name.clone()) {
+                                v.violation = Some(format!("step {}: set_timezone({:?}) rejected: {}", step, name, e));
+                                return v;
+                            }
+                            let o = if let Some(o) = spec().zones.get(name.as_str()) { *o } else { gmt_forms().into_iter().find(|(n, _)| n == name).map(|(_, o)| o).unwrap_or(0) };
+                            (name.to_uppercase(), o)
+                        }
+                    };
+                    let est = *spec().zones.get("EST").unwrap_or(&0);
+                    let lines: Vec<(String, Want)> = vec![
+                        ("11:30".to_string(), Want::Time { utc_mod: m(hms(11, 30, 0) - off as i64 * 60), zone: label.clone(), off }),
+                        ("23:45 + 30 minutes".to_string(), Want::Time { utc_mod: m(hms(23, 45, 0) + 1800 - off as i64 * 60), zone: label.clone(), off }),
+                        ("0:15 to EST".to_string(), Want::Time { utc_mod: m(hms(0, 15, 0) - off as i64 * 60), zone: "EST".to_string(), off: est }),
+                        ("3:00 to 1:30".to_string(), Want::Duration(5400)),
+                    ];
+                    for (text, want) in lines {
+                        let run = obs::eval(&calc, "en", &text);
+                        v.evals += 1;
+                        let mut probe = Verdict::default();
+                        if let Run::Panic(p) = &run {
+                            probe.violation = Some(format!("panic: {}", p.message));
+                            v.site = Some(p.site.clone());
+                        } else {
+                            judge_time(&run, &want, &mut probe);
+                        }
+                        if let Some(w) = probe.violation {
+                            v.expected = format!("{:?}", want);
+                            v.observed = format!("{}step {} [{}] {} -> {}", trace, step, label, text, run.brief());
+                            v.violation = Some(format!("step {}: after set_timezone the line {:?}: {}", step, text, w));
+                            return v;
+                        }
+                    }
+                    trace.push_str(&format!("[{}] ok; ", label));
+                }
+                v.observed = trace;
                 v
             }
             Case::SetZone { before, name, want } => {
